@@ -62,6 +62,7 @@ type Stmt struct {
 	Mut   string   `json:"mut,omitempty"`   // the one mutating binding the statement calls ("" = read-only)
 	Calls []string `json:"calls,omitempty"` // every binding the statement's text calls (names of Bindings)
 	Raise bool     `json:"raise,omitempty"`
+	Safe  bool     `json:"safe,omitempty"` // the whole statement is wrapped in pcall: it cannot stop the script
 	// Raise: the statement unconditionally raises an unprotected error at top
 	// level, i.e. when it is reached the script must stop there.
 	Lua string `json:"lua"`
@@ -89,14 +90,19 @@ type Case struct {
 	ReadOnly  bool            `json:"read_only"` // no script calls a mutating binding -> differential clause applies
 }
 
-// Prelude is put at the top of every script: a helper that renders a listing
-// deterministically.
+// Prelude is put at the top of every script: j renders a listing
+// deterministically, es renders a caught error value (only strings verbatim:
+// tostring of a table would print an address).
 const Prelude = `local function j(t)
   if type(t) ~= "table" then return tostring(t) end
   local c = {}
   for i, v in ipairs(t) do c[i] = tostring(v) end
   table.sort(c)
   return "[" .. table.concat(c, ",") .. "]"
+end
+local function es(e)
+  if type(e) == "string" then return e end
+  return type(e)
 end
 `
 
